@@ -20,7 +20,7 @@ from pathlib import Path
 
 VERIF = Path(__file__).resolve().parent.parent
 REPO = Path(os.environ.get("JADE_REPO", "/repo"))
-COQ = VERIF / "coq"
+COQ = Path(os.environ.get("VERIF_COQ_DIR", VERIF / "coq"))   # override only for development
 THEORIES = COQ / "theories"
 WORK = VERIF / ".work"
 EVIDENCE = VERIF / "evidence"
